@@ -3,7 +3,8 @@
 seed directory (tools/kill_matrix.sh on a scratch copy of /repo HEAD)."""
 import json, os, shutil, subprocess, sys, glob
 out = '/verif/seeded'
-NOTES = {'C04-a': 'confirmed at 1ed2f78. Since the repair of the dump path (285cda4: a failed index dump puts the header map back) the failed dump this change provokes no longer empties the in-memory index, so the demo passes with the change on the current tree (re-run at db45bf7 with patch_head.diff). The edit is still wrong - every later dump of such a blob fails and background maintenance never completes, which is what seed C13r7-a (the same edit, confirmed at db45bf7 against C13) demonstrates - and is reported by C04.T5 / C10.B8.',
+NOTES = {'C12r14-a': 'confirmed at db45bf7, the tree the sub-agent worked on. The change cooperated with the defect F16 of the unchanged code (a sync recorded the reservation counter as synced, so a reservation given back after a failed append left synced_size above size). On the repaired tree (5b3c102: syncs record the count of completed writes) giving a reservation back no longer touches the dirty-byte accounting; the edit still lets a later append reuse an offset below the high-water mark of the file and is reported by C07.H3 / C08.D4 (patch_head.diff is the edit carried over to the repaired file).',
+         'C04-a': 'confirmed at 1ed2f78. Since the repair of the dump path (285cda4: a failed index dump puts the header map back) the failed dump this change provokes no longer empties the in-memory index, so the demo passes with the change on the current tree (re-run at db45bf7 with patch_head.diff). The edit is still wrong - every later dump of such a blob fails and background maintenance never completes, which is what seed C13r7-a (the same edit, confirmed at db45bf7 against C13) demonstrates - and is reported by C04.T5 / C10.B8.',
          'C08r11-a': 'timing dependent: in my confirmation the demo passed in the two scripted runs with the patch applied and failed in 1 of 3 further runs (a reader has to hit the window in which the blob is neither active nor closed); it never fails on the clean tree. Statically the change is decided by C04.T4 / C14.X3 (the blob leaves the exclusive section between take and push).',
          'C04r8-a': 'NOT a valid seed: in my confirmation the existing suite fails with this change applied (tests::test_read_ordered_by_timestamp_in_different_blobs and test_multithread_read_write_exist_delete, 4 of 4 runs, fresh TMPDIR) although the sub-agent reported 76 passes. Kept for the record; the rule written from it (C04.T15: an index file is built into an emptied or absent file) is a necessary condition in its own right and stays.',
          'C08r5-a': 'confirmed at 3f851bc (the tree the sub-agent worked on). The change relied on re-opened blobs being O_APPEND descriptors (finding F14, repaired by 067f913): with positional writes the order of the two pwrites of a large record is immaterial, the demo passes with the patch on the repaired tree, and the rule that used to flag it (C05.V6) was retired.',
